@@ -420,6 +420,9 @@ class Interp(object):
                 return self.classref(obj.cls)
             if attr == '__dict__':
                 return obj.attrs
+            if not self.stack:
+                # asked for by a rule, not by the analysed program: the rule's anchor is gone
+                raise AnalysisError('anchor vanished: attribute %s of a %s object' % (attr, obj.cls.name))
             raise InterpRaise("'%s' object has no attribute '%s'" % (obj.cls.name, attr), 'AttributeError')
         if isinstance(obj, ClassRef):
             if attr == '__name__':
@@ -427,6 +430,8 @@ class Interp(object):
             ok, v = self.get_class_member(obj.cls, attr, None)
             if ok:
                 return v
+            if not self.stack:
+                raise AnalysisError('anchor vanished: attribute %s of class %s' % (attr, obj.cls.name))
             raise InterpRaise("type object '%s' has no attribute '%s'" % (obj.cls.name, attr), 'AttributeError')
         if isinstance(obj, SuperProxy):
             ok, v = self.get_class_member(obj.obj.cls, attr, obj.obj, after=obj.after)
